@@ -7,7 +7,8 @@ From GMQ Require Import Broker.Model Proofs.BrokerFrames Proofs.BrokerRefusal.
 Open Scope N_scope.
 
 Inductive rkind := KChannelOpenOk | KChannelCloseOk | KFlowOk | KExDeclareOk | KQDeclareOk | KBindOk | KUnbindOk | KPurgeOk
-                 | KDeleteOk | KQosOk | KConsumeOk | KCancelOk | KGetOk | KGetEmpty | KConfirmSelectOk | KConnCloseOk.
+                 | KDeleteOk | KQosOk | KConsumeOk | KCancelOk | KGetOk | KGetEmpty | KConfirmSelectOk | KConnCloseOk
+                 | KConnTune | KConnOpenOk.
 
 (* the reply frames (everything that answers a request; deliveries, returns, content frames, broker-sent basic.cancel,
    confirms and close frames are not replies) *)
@@ -18,6 +19,7 @@ Definition reply_kind (f : sframe) : option rkind :=
   | SQPurgeOk _ => Some KPurgeOk | SQDeleteOk _ => Some KDeleteOk | SQosOk => Some KQosOk | SConsumeOk _ => Some KConsumeOk
   | SCancelOk _ => Some KCancelOk | SGetOk _ _ _ _ _ => Some KGetOk | SGetEmpty => Some KGetEmpty
   | SConfirmSelectOk => Some KConfirmSelectOk | SConnCloseOk => Some KConnCloseOk
+  | SConnTune => Some KConnTune | SConnOpenOk => Some KConnOpenOk
   | _ => None
   end.
 
@@ -51,6 +53,7 @@ Definition expected (m : meth) : list rkind :=
   | MConfirmSelect nowait => if nowait then [] else [KConfirmSelectOk]
   | MTxSelect => []
   | MConnClose => [KConnCloseOk] | MConnCloseOk => []
+  | MStartOk _ => [KConnTune] | MTuneOk _ => [] | MConnOpen _ => [KConnOpenOk]
   end.
 
 Lemma replies_content s c h u : replies (content_frames s c h u) = [].
